@@ -18,6 +18,8 @@ STATS = {
     "vectors": set(), "nt_vectors": set(), "samples": [],
 }
 MAX_SAMPLES = 6
+NATIVE = False   # set by vf.replay: concrete run, values may be rendered
+LAST = {}       # details of the most recent oracle evaluation (shown by native replay)
 
 
 def reset_stats():
@@ -67,6 +69,8 @@ def excluded(vec):
 
 def finish(ok, vec, nontrivial, sym=None):
     """Called once at the end of each completed path with the concrete decision vector."""
+    LAST["vector"] = vec
+    LAST["ok"] = ok
     STATS["paths"] += 1
     key = tuple(sorted((k, repr(v)) for k, v in vec.items()))
     STATS["vectors"].add(key)
@@ -119,3 +123,39 @@ def dec(x):
         if "__dict__" in x:
             return {dec(k): dec(v) for k, v in x["__dict__"]}
     return x
+
+
+class V:
+    """Opaque totally ordered value wrapping a (possibly symbolic) int. Its repr is constant under
+    the engine, so code under test that formats a matchee does not fork on the digits of a symbolic
+    int; comparisons delegate to the wrapped int and stay symbolic."""
+    __slots__ = ("i",)
+
+    def __init__(self, i):
+        self.i = i
+
+    def __repr__(self):
+        return "V(%r)" % (self.i,) if NATIVE else "<V>"
+
+    def __eq__(self, o):
+        return isinstance(o, V) and self.i == o.i
+
+    def __ne__(self, o):
+        return not (isinstance(o, V) and self.i == o.i)
+
+    def __lt__(self, o):
+        return self.i < o.i
+
+    def __gt__(self, o):
+        return self.i > o.i
+
+    def __le__(self, o):
+        return self.i <= o.i
+
+    def __ge__(self, o):
+        return self.i >= o.i
+
+    def __add__(self, k):
+        return V(self.i + k)
+
+    __hash__ = None
